@@ -155,13 +155,15 @@ def gfa_text(g, L):
 def prime_with_sibling(scratch, L, maxlen=2):
     """Before a layout is checked, both conversions are run once in this process on a sibling graph (same contigs and
     intervals, differently named segments): a result must not depend on what an earlier call has seen."""
-    sib = L.sibling()
-    g = sib.graph("complete")
-    gpath = os.path.join(scratch, "sibling.gfa")
-    fw.write_text(gpath, g.text())
-    recs = [r for r, st in records_for(g, sib, min(maxlen, 2))][:400]
-    if not recs:
-        return
-    view_convert(scratch, "".join(r.line() + "\n" for r in recs), gpath, "stable", "sib1")
-    srecs = [rgfa.to_stable_model(g, r) for r in recs]
-    view_convert(scratch, "".join(r.line() + "\n" for r in srecs), gpath, "unstable", "sib2")
+    # (i) same contigs and intervals under other segment names, (ii) the same contig names tiled differently
+    retiled = gen.Layout(tuple(reversed(L.ref_lens)) + (2,), L.pattern if L.pattern != "one" else "touching2", L.scale)
+    for other in (L.sibling(), retiled):
+        g = other.graph("complete")
+        gpath = os.path.join(scratch, "sibling.gfa")
+        fw.write_text(gpath, g.text())
+        recs = [r for r, st in records_for(g, other, min(maxlen, 2))][:400]
+        if not recs:
+            continue
+        view_convert(scratch, "".join(r.line() + "\n" for r in recs), gpath, "stable", "sib1")
+        srecs = [rgfa.to_stable_model(g, r) for r in recs]
+        view_convert(scratch, "".join(r.line() + "\n" for r in srecs), gpath, "unstable", "sib2")
